@@ -154,7 +154,7 @@ def r_option_normalised(ctx, repo):
                     admissible = lambda v: v[0] is not None and v[0] > v[1] * 2
                     env = None
                 else:
-                    probes = [None, '\r', '\n', '\r\n', '\n\r', '', ' ', '\x85', ' ', 'x', '\n\n']
+                    probes = [None, '\r', '\n', '\r\n', '\n\r', '', ' ', '\x85', '\u2028', 'x', '\n\n']
                     admissible = lambda v: v in ('\r', '\n', '\r\n')
                     env = lambda v: {param: v}
                 bad = None
